@@ -45,6 +45,11 @@ theorem GoodR.mono {α : Type} {x : Except Err (α × Rd)} {n m : Nat} (h : Good
 theorem readN_good (k : Nat) (r : Rd) : GoodR r.rest.length (readN k r) := by
   unfold readN; split
   · simp [GoodR]
+  · split <;> simp [GoodR, isBad]
+
+theorem readNCopy_good (k : Nat) (r : Rd) : GoodR r.rest.length (readNCopy k r) := by
+  unfold readNCopy; split
+  · simp [GoodR]
   · simp [GoodR, isBad]
 
 theorem readUint_good (be : Bool) (w : Nat) (r : Rd) : GoodR r.rest.length (readUint be w r) := by
@@ -53,6 +58,11 @@ theorem readUint_good (be : Bool) (w : Nat) (r : Rd) : GoodR r.rest.length (read
   cases h : readN w r with
   | error e => rw [h] at this; simpa [GoodR] using this
   | ok p => obtain ⟨bs, r'⟩ := p; rw [h] at this; simpa [GoodR] using this
+
+theorem readUintIn_good (be : Bool) (w total : Nat) (r : Rd) : GoodR r.rest.length (readUintIn be w total r) := by
+  unfold readUintIn; split
+  · exact readUint_good be w r
+  · split <;> simp [GoodR, isBad]
 
 /-- the hardened configuration: all guards, a budget covering 16 bytes per input byte -/
 structure Hard (c : Cfg) (B : Nat) : Prop where
@@ -72,7 +82,7 @@ theorem readStrV1_good {c : Cfg} {B : Nat} (hc : Hard c B) (r : Rd) :
   simp only []
   split
   · simp [hc.g, Guards.all, GoodR, isBad]
-  · refine GoodR.bind (GoodR.mono (readN_good _ r') hr') ?_
+  · refine GoodR.bind (GoodR.mono (readNCopy_good _ r') hr') ?_
     intro bs r'' h; simpa [GoodR, pure, Except.pure] using h
 
 theorem readStrV23_good {c : Cfg} {B : Nat} (hc : Hard c B) (r : Rd) (hB : 16 * r.rest.length ≤ B) :
@@ -88,7 +98,7 @@ theorem readStrV23_good {c : Cfg} {B : Nat} (hc : Hard c B) (r : Rd) (hB : 16 * 
       have hle : (toI64 n).toNat ≤ r'.rest.length := by
         simp only [hc.g, Guards.all, true_and, Nat.not_lt] at hnot; exact hnot
       rw [show checkAlloc c "string" (toI64 n).toNat = .ok () from checkAlloc_ok hc _ _ (by omega)]
-      exact GoodR.mono (readN_good _ r') hr'
+      exact GoodR.mono (readNCopy_good _ r') hr'
   · split
     · simp [hc.g, Guards.all, GoodR, isBad]
     · exact GoodR.mono (readN_good _ r') hr'
@@ -106,7 +116,7 @@ theorem discardStr_good (c : Cfg) (r : Rd) : GoodR r.rest.length (discardStr c r
   simp only []
   split
   · simpa [GoodR, pure, Except.pure] using hr'
-  · refine GoodR.bind (GoodR.mono (readN_good _ r') hr') ?_
+  · refine GoodR.bind (GoodR.mono (readNCopy_good _ r') hr') ?_
     intro bs r'' h; simpa [GoodR, pure, Except.pure] using h
 
 theorem readScalar_good (c : Cfg) (t w : Nat) (r : Rd) : GoodR r.rest.length (readScalar c t w r) := by
@@ -223,7 +233,7 @@ theorem readTensor_good {c : Cfg} {B : Nat} (hc : Hard c B) (r : Rd) (hB : 16 * 
   intro dims r2 h2
   simp only []
   split
-  · simp [GoodR, isBad]
+  · split <;> simp [GoodR, isBad]
   · rename_i hd
     simp only [hc.g, Guards.all, true_and, Nat.not_lt] at hd
     rw [show checkAlloc c "shape" (8 * dims) = .ok () from checkAlloc_ok hc _ _ (by omega)]
@@ -287,22 +297,27 @@ theorem decodeBody_safe {c : Cfg} {B : Nat} (hc : Hard c B) (numKV numTensor : N
       | error e => rw [hse] at hs; simpa [Safe] using hs
       | ok e => simp [Safe, pure, Except.pure]
 
-/-- **Decoder safety (hardened variant), for every byte string.** -/
-theorem decode_safe_all (bs : Bytes) (maxArraySize : Int) (B : Nat) (hB : 16 * bs.length ≤ B) :
-    Safe (decode bs maxArraySize (some B) Guards.all) := by
-  unfold decode
+/-- decoder safety from any reader state (the file positioned anywhere): what `ggufLayers` relies on
+    for the second and later models of an upload -/
+theorem decodeFrom_safe_all (r : Rd) (maxArraySize : Int) (B : Nat) (hB : 16 * r.rest.length ≤ B) :
+    Safe (decodeFrom r maxArraySize (some B) Guards.all) := by
+  unfold decodeFrom
   simp only []
-  refine GoodR.safe_bind (readUint_good false 4 ⟨bs, 0⟩) ?_
+  refine GoodR.safe_bind (readUint_good false 4 r) ?_
   intro magic r1 h1
-  simp only [] at h1
   split
   · simp [Safe, isBad]
   · refine GoodR.safe_bind (GoodR.mono (readUint_good _ 4 r1) h1) ?_
     intro version r2 h2
-    refine GoodR.safe_bind (GoodR.mono (readUint_good _ _ r2) h2) ?_
+    refine GoodR.safe_bind (GoodR.mono (readUintIn_good _ _ _ r2) h2) ?_
     intro nT r3 h3
     refine GoodR.safe_bind (GoodR.mono (readUint_good _ _ r3) h3) ?_
     intro nKV r4 h4
     exact decodeBody_safe ⟨rfl, rfl⟩ nKV nT r4 (by omega)
+
+/-- **Decoder safety (hardened variant), for every byte string.** -/
+theorem decode_safe_all (bs : Bytes) (maxArraySize : Int) (B : Nat) (hB : 16 * bs.length ≤ B) :
+    Safe (decode bs maxArraySize (some B) Guards.all) :=
+  decodeFrom_safe_all ⟨bs, 0⟩ maxArraySize B hB
 
 end OllamaVerif.Gguf
